@@ -31,6 +31,9 @@ type payload struct {
 	Inputs  map[string]*lang.Val `json:"inputs,omitempty"`
 	Run     bool                 `json:"run"`
 	Dedup   bool                 `json:"dedup"`
+	// MustCompile: the program is within every static limit (boundary cases
+	// that sit on the permitted side): a compile error is a failure
+	MustCompile bool `json:"must_compile,omitempty"`
 }
 
 type compiled struct {
@@ -183,6 +186,10 @@ func checkSource(t ev.TB, test string, p payload, classes []string, funcsHint in
 		return
 	}
 	if c.err != nil {
+		if p.MustCompile {
+			ev.Fail(t, test, p, "a program within the static limits is refused: %v\n--- source ---\n%s", c.err, clip(p.Source))
+			return
+		}
 		ev.Discard("does not compile")
 		return
 	}
@@ -424,37 +431,54 @@ func TestLimitBoundaries(t *testing.T) {
 		name string
 		src  string
 		run  bool
+		mods map[string]string
+		must bool
 	}
 	var cases []bc
+	// a module body is a function of its own: its locals have the function
+	// limit, whatever the importer has; an importer with many globals can
+	// import any module
+	for _, n := range []int{200, 255, 256, 257, 300, 512} {
+		var body strings.Builder
+		for i := 0; i < n; i++ {
+			fmt.Fprintf(&body, "v%d := %d\n", i, i)
+		}
+		fmt.Fprintf(&body, "export [v0, v%d, v%d]\n", n/2, n-1)
+		cases = append(cases, bc{name: fmt.Sprintf("module-locals-%d", n), src: "m := import(\"big\")\nr := m\n", run: true, mods: map[string]string{"big": body.String()}, must: n <= 256})
+	}
+	for _, n := range []int{200, 257, 300, 1000} {
+		cases = append(cases, bc{name: fmt.Sprintf("importer-globals-%d", n), src: manyGlobals(n) + "x := import(\"small\")\n", run: true,
+			mods: map[string]string{"small": "a := 1\nb := 2\nexport a + b\n"}, must: true})
+	}
 	for _, n := range []int{254, 255, 256, 257, 258, 300, 511, 512, 513} {
-		cases = append(cases, bc{fmt.Sprintf("locals-%d", n), manyLocals(n, true), true})
+		cases = append(cases, bc{name: fmt.Sprintf("locals-%d", n), src: manyLocals(n, true), run: true})
 	}
 	for _, n := range []int{254, 255, 256, 257, 300, 512} {
-		cases = append(cases, bc{fmt.Sprintf("args-%d", n), manyArgs(n), true})
-		cases = append(cases, bc{fmt.Sprintf("params-%d", n), manyParams(n), true})
-		cases = append(cases, bc{fmt.Sprintf("selectors-%d", n), manySelectors(n), false})
-		cases = append(cases, bc{fmt.Sprintf("freevars-%d", n), manyFreeVars(n), n <= 300})
+		cases = append(cases, bc{name: fmt.Sprintf("args-%d", n), src: manyArgs(n), run: true})
+		cases = append(cases, bc{name: fmt.Sprintf("params-%d", n), src: manyParams(n), run: true})
+		cases = append(cases, bc{name: fmt.Sprintf("selectors-%d", n), src: manySelectors(n), run: false})
+		cases = append(cases, bc{name: fmt.Sprintf("freevars-%d", n), src: manyFreeVars(n), run: n <= 300})
 	}
 	for _, n := range []int{65534, 65535, 65536, 65537} {
-		cases = append(cases, bc{fmt.Sprintf("elems-%d", n), manyElems(n), false})
+		cases = append(cases, bc{name: fmt.Sprintf("elems-%d", n), src: manyElems(n), run: false})
 	}
 	for _, n := range []int{1000, 1022, 1023, 1024, 1025, 1100} {
-		cases = append(cases, bc{fmt.Sprintf("globals-%d", n), manyGlobals(n), n <= 1023})
+		cases = append(cases, bc{name: fmt.Sprintf("globals-%d", n), src: manyGlobals(n), run: n <= 1023})
 	}
 	for _, n := range []int{65520, 65536, 65600} {
-		cases = append(cases, bc{fmt.Sprintf("constants-%d", n), manyConstants(n), false})
+		cases = append(cases, bc{name: fmt.Sprintf("constants-%d", n), src: manyConstants(n), run: false})
 	}
 	for _, kind := range []string{"if-else", "for", "for-in", "and-or", "cond"} {
 		for _, n := range []int{5000, 6800, 9000, 14000} {
 			for _, inFunc := range []bool{false, true} {
-				cases = append(cases, bc{fmt.Sprintf("bigcode-%s-%d-%v", kind, n, inFunc), bigCode(n, inFunc, kind), true})
+				cases = append(cases, bc{name: fmt.Sprintf("bigcode-%s-%d-%v", kind, n, inFunc), src: bigCode(n, inFunc, kind), run: true})
 			}
 		}
 	}
 	for _, c := range cases {
 		c := c
 		t.Run(c.name, func(t *testing.T) {
-			checkSource(t, "TestLimitBoundaries", payload{Source: c.src, Run: c.run}, []string{"boundary", "boundary:" + strings.SplitN(c.name, "-", 2)[0]}, 0)
+			checkSource(t, "TestLimitBoundaries", payload{Source: c.src, Run: c.run, Modules: c.mods, MustCompile: c.must}, []string{"boundary", "boundary:" + strings.SplitN(c.name, "-", 2)[0]}, 0)
 		})
 	}
 }
